@@ -1,8 +1,10 @@
 package core
 
 import (
+	"fmt"
 	"go/token"
 	"go/types"
+	"os"
 	"sort"
 	"strings"
 
@@ -198,6 +200,20 @@ type FnFacts struct {
 	eng  *Engine
 	edge map[[2]*ssa.BasicBlock][]Fact
 	dead map[[2]*ssa.BasicBlock]bool
+	// phi threading: a block that ends in a test of one of its own phis lets through, on each outgoing edge, only the
+	// facts of the incoming edges whose phi operand is compatible with the outcome of the test
+	tests    map[*ssa.BasicBlock]*phiTest
+	edgeOut  map[[2]*ssa.BasicBlock]FactSet // facts at the end of an edge (previous iteration)
+	feasible map[[2]*ssa.BasicBlock][][]int // per outgoing edge of a test block: the compatible ways in (predecessor index chains)
+	resolved map[*ssa.Phi]ssa.Value
+}
+
+// phiTest: the block's If tests phi (of the same block) against nil / a boolean outcome.
+type phiTest struct {
+	phi    *ssa.Phi
+	isBool bool // the phi itself is the (possibly negated) condition
+	// for nil tests: the true edge means "phi != nil" when neqOnTrue
+	neqOnTrue bool
 }
 
 // Summary is the success summary of a function.
@@ -294,6 +310,239 @@ func (ff *FnFacts) run() {
 			work = append(work, s)
 		}
 	}
+	ff.dataflow()
+	// phis whose value is decided by such a test at every use are given the term of that operand, and the facts
+	// are recomputed with those terms
+	if res := ff.resolvePhis(); len(res) > 0 {
+		ff.resolved = res
+		tb := NewTermBuilder(ff.TB.P, fn)
+		tb.LiveEdge = ff.TB.LiveEdge
+		tb.PhiResolve = func(p *ssa.Phi) ssa.Value { return ff.resolved[p] }
+		ff.TB = tb
+		ff.In = map[*ssa.BasicBlock]FactSet{}
+		ff.edge = map[[2]*ssa.BasicBlock][]Fact{}
+		ff.dataflow()
+	}
+}
+
+// findTest recognises `if phi != nil`, `if phi == nil`, `if phi`, `if !phi` for a phi of block b.
+func findTest(b *ssa.BasicBlock) *phiTest {
+	iff, ok := b.Instrs[len(b.Instrs)-1].(*ssa.If)
+	if !ok {
+		return nil
+	}
+	cond := iff.Cond
+	neg := false
+	for {
+		if u, isU := cond.(*ssa.UnOp); isU && u.Op == token.NOT {
+			neg = !neg
+			cond = u.X
+			continue
+		}
+		break
+	}
+	if phi, isPhi := cond.(*ssa.Phi); isPhi && phi.Block() == b {
+		return &phiTest{phi: phi, isBool: true, neqOnTrue: !neg}
+	}
+	if bo, isB := cond.(*ssa.BinOp); isB && (bo.Op == token.EQL || bo.Op == token.NEQ) {
+		var other ssa.Value
+		if isNilConst(bo.Y) {
+			other = bo.X
+		} else if isNilConst(bo.X) {
+			other = bo.Y
+		}
+		if phi, isPhi := other.(*ssa.Phi); isPhi && phi.Block() == b {
+			return &phiTest{phi: phi, neqOnTrue: (bo.Op == token.NEQ) != neg}
+		}
+	}
+	return nil
+}
+
+// compatible: can operand v (facts: those at the end of its incoming edge) make the test come out as `truth`?
+func (ff *FnFacts) compatible(pt *phiTest, v ssa.Value, truth bool, facts FactSet) bool {
+	if pt.isBool {
+		want := truth == pt.neqOnTrue // value the phi must have
+		if c, ok := v.(*ssa.Const); ok && c.Value != nil {
+			return (c.Value.String() == "true") == want
+		}
+		t := ff.TB.Of(v)
+		if facts.Has((&Fact{Kind: "true", A: t}).Key()) {
+			return want
+		}
+		if facts.Has((&Fact{Kind: "false", A: t}).Key()) {
+			return !want
+		}
+		return true
+	}
+	wantNonNil := truth == pt.neqOnTrue
+	if isNilConst(v) {
+		return !wantNonNil
+	}
+	t := ff.TB.Of(v)
+	nilT := &Term{Op: "const", Name: "nil"}
+	if isErrorType(v.Type()) {
+		possible, _ := ff.nilErr(v, facts)
+		if !possible {
+			return wantNonNil
+		}
+		if ct := ff.callOfErr(v); ct != nil && facts.Has((&Fact{Kind: "ok", A: ct}).Key()) {
+			return !wantNonNil
+		}
+	} else {
+		switch v.(type) {
+		case *ssa.Alloc, *ssa.MakeInterface, *ssa.MakeMap, *ssa.MakeSlice, *ssa.MakeClosure, *ssa.MakeChan:
+			return wantNonNil
+		}
+	}
+	if facts.Has((&Fact{Kind: "cmp", Op: "!=", A: t, B: nilT}).Key()) {
+		return wantNonNil
+	}
+	if facts.Has((&Fact{Kind: "cmp", Op: "==", A: t, B: nilT}).Key()) {
+		return !wantNonNil
+	}
+	return true
+}
+
+// incoming is one way control can arrive at a test block: the operand the tested phi then has (phis of pass-through
+// predecessor blocks are expanded), the facts at the end of that way, and the predecessor indexes followed.
+type incoming struct {
+	val   ssa.Value
+	judge FactSet // facts where the operand enters (an SSA value does not change afterwards)
+	facts FactSet // facts on arrival at the test block
+	idx   []int
+}
+
+func (ff *FnFacts) liveSuccs(b *ssa.BasicBlock) []*ssa.BasicBlock {
+	var out []*ssa.BasicBlock
+	for _, s := range b.Succs {
+		if !ff.dead[[2]*ssa.BasicBlock{b, s}] {
+			out = append(out, s)
+		}
+	}
+	return out
+}
+
+func (ff *FnFacts) incomings(p *ssa.BasicBlock, phi *ssa.Phi, depth int) []incoming {
+	var out []incoming
+	for i, q := range p.Preds {
+		if !ff.Live[q] || ff.dead[[2]*ssa.BasicBlock{q, p}] {
+			continue
+		}
+		eo, ok := ff.edgeOut[[2]*ssa.BasicBlock{q, p}]
+		if !ok {
+			continue // TOP
+		}
+		v := phi.Edges[i]
+		if vp, isPhi := v.(*ssa.Phi); isPhi && vp.Block() == q && depth > 0 && ff.tests[q] == nil {
+			if ls := ff.liveSuccs(q); len(ls) == 1 && ls[0] == p {
+				subs := ff.incomings(q, vp, depth-1)
+				for _, sb := range subs {
+					f := ff.outOf(q, sb.facts)
+					for _, ef := range ff.edge[[2]*ssa.BasicBlock{q, p}] {
+						f.add(ef)
+					}
+					out = append(out, incoming{val: sb.val, judge: sb.judge, facts: f, idx: append([]int{i}, sb.idx...)})
+				}
+				continue
+			}
+		}
+		out = append(out, incoming{val: v, judge: eo, facts: eo, idx: []int{i}})
+	}
+	return out
+}
+
+// outToward: the facts at the end of block p when control leaves it toward s.
+func (ff *FnFacts) outToward(p, s *ssa.BasicBlock, pin FactSet) FactSet {
+	base := pin
+	if pt := ff.tests[p]; pt != nil && len(p.Succs) == 2 && p.Succs[0] != p.Succs[1] {
+		truth := s == p.Succs[0]
+		var acc FactSet
+		first := true
+		var feas [][]int
+		for _, in := range ff.incomings(p, pt.phi, 3) {
+			if !ff.compatible(pt, in.val, truth, in.judge) {
+				continue
+			}
+			feas = append(feas, in.idx)
+			if first {
+				acc = in.facts.clone()
+				first = false
+			} else {
+				acc = intersect(acc, in.facts)
+			}
+		}
+		ff.feasible[[2]*ssa.BasicBlock{p, s}] = feas
+		if !first {
+			base = acc
+			for k, f := range pin {
+				base[k] = f
+			}
+		}
+	}
+	out := ff.outOf(p, base)
+	for _, f := range ff.edge[[2]*ssa.BasicBlock{p, s}] {
+		out.add(f)
+	}
+	return out
+}
+
+func predIndex(b, pred *ssa.BasicBlock) int {
+	for i, q := range b.Preds {
+		if q == pred {
+			return i
+		}
+	}
+	return -1
+}
+
+// PathFeasible: can control, having run through path, continue to next? False only when the last block of the path
+// tests one of its phis and the operand selected by the path cannot make the test come out that way.
+func (ff *FnFacts) PathFeasible(path []*ssa.BasicBlock, next *ssa.BasicBlock) bool {
+	if len(path) < 2 {
+		return true
+	}
+	p := path[len(path)-1]
+	pt := ff.tests[p]
+	if pt == nil || len(p.Succs) != 2 || p.Succs[0] == p.Succs[1] {
+		return true
+	}
+	truth := next == p.Succs[0]
+	k := len(path) - 2
+	q := path[k]
+	i := predIndex(p, q)
+	if i < 0 {
+		return true
+	}
+	v := pt.phi.Edges[i]
+	enter := [2]*ssa.BasicBlock{q, p}
+	for k > 0 {
+		vp, ok := v.(*ssa.Phi)
+		if !ok || vp.Block() != q {
+			break
+		}
+		r := path[k-1]
+		j := predIndex(q, r)
+		if j < 0 {
+			break
+		}
+		v = vp.Edges[j]
+		enter = [2]*ssa.BasicBlock{r, q}
+		q = r
+		k--
+	}
+	facts := ff.edgeOut[enter]
+	if facts == nil {
+		facts = FactSet{}
+	}
+	return ff.compatible(pt, v, truth, facts)
+}
+
+// dataflow: edge facts and the forward must dataflow.
+func (ff *FnFacts) dataflow() {
+	fn := ff.Fn
+	ff.tests = map[*ssa.BasicBlock]*phiTest{}
+	ff.edgeOut = map[[2]*ssa.BasicBlock]FactSet{}
+	ff.feasible = map[[2]*ssa.BasicBlock][][]int{}
 	// Phase 2: edge facts.
 	for _, b := range fn.Blocks {
 		if !ff.Live[b] {
@@ -302,6 +551,9 @@ func (ff *FnFacts) run() {
 		if iff, ok := b.Instrs[len(b.Instrs)-1].(*ssa.If); ok && b.Succs[0] != b.Succs[1] {
 			ff.edge[[2]*ssa.BasicBlock{b, b.Succs[0]}] = ff.condFacts(iff.Cond, true, b)
 			ff.edge[[2]*ssa.BasicBlock{b, b.Succs[1]}] = ff.condFacts(iff.Cond, false, b)
+			if pt := findTest(b); pt != nil {
+				ff.tests[b] = pt
+			}
 		}
 	}
 	// Phase 3: forward must dataflow (intersection at joins).
@@ -320,7 +572,24 @@ func (ff *FnFacts) run() {
 	for iter := 0; changed && iter < 200; iter++ {
 		changed = false
 		for _, b := range fn.Blocks {
-			if !ff.Live[b] || b == fn.Blocks[0] {
+			if !ff.Live[b] {
+				continue
+			}
+			// the facts this block sends along its outgoing edges (used by test blocks downstream)
+			if bin, ok := ff.In[b]; ok {
+				for _, s := range b.Succs {
+					if ff.dead[[2]*ssa.BasicBlock{b, s}] {
+						continue
+					}
+					k := [2]*ssa.BasicBlock{b, s}
+					o := ff.outToward(b, s, bin)
+					if old, had := ff.edgeOut[k]; !had || len(old) != len(o) {
+						ff.edgeOut[k] = o
+						changed = true
+					}
+				}
+			}
+			if b == fn.Blocks[0] {
 				continue
 			}
 			var acc FactSet
@@ -329,16 +598,12 @@ func (ff *FnFacts) run() {
 				if !ff.Live[p] || ff.dead[[2]*ssa.BasicBlock{p, b}] {
 					continue
 				}
-				pin, ok := ff.In[p]
+				out, ok := ff.edgeOut[[2]*ssa.BasicBlock{p, b}]
 				if !ok {
 					continue // TOP
 				}
-				out := ff.outOf(p, pin)
-				for _, f := range ff.edge[[2]*ssa.BasicBlock{p, b}] {
-					out.add(f)
-				}
 				if first {
-					acc = out
+					acc = out.clone()
 					first = false
 				} else {
 					acc = intersect(acc, out)
@@ -354,6 +619,100 @@ func (ff *FnFacts) run() {
 			}
 		}
 	}
+	if os.Getenv("SIDECHECK_DEBUG_FLOW") != "" && strings.Contains(fn.String(), os.Getenv("SIDECHECK_DEBUG_FLOW")) {
+		for _, b := range fn.Blocks {
+			fmt.Fprintf(os.Stderr, "block %d live=%v in=%d %v\n", b.Index, ff.Live[b], len(ff.In[b]), ff.In[b].Sorted())
+			for _, s := range b.Succs {
+				fmt.Fprintf(os.Stderr, "   -> %d out=%d feasible=%v\n", s.Index, len(ff.edgeOut[[2]*ssa.BasicBlock{b, s}]), ff.feasible[[2]*ssa.BasicBlock{b, s}])
+			}
+		}
+	}
+}
+
+// resolvePhis: a phi of a test block all of whose uses lie behind one outgoing edge that a single incoming edge can
+// reach has, wherever it is used, the value of that incoming edge's operand.
+func (ff *FnFacts) resolvePhis() map[*ssa.Phi]ssa.Value {
+	out := map[*ssa.Phi]ssa.Value{}
+	for b, pt := range ff.tests {
+		type cand struct {
+			succ *ssa.BasicBlock
+			idx  []int
+		}
+		var cands []cand
+		for _, s := range b.Succs {
+			f := ff.feasible[[2]*ssa.BasicBlock{b, s}]
+			if len(f) == 1 && len(s.Preds) == 1 {
+				cands = append(cands, cand{s, f[0]})
+			}
+		}
+		if len(cands) == 0 {
+			continue
+		}
+		for _, ins := range b.Instrs {
+			phi, ok := ins.(*ssa.Phi)
+			if !ok {
+				break
+			}
+			refs := phi.Referrers()
+			if refs == nil {
+				continue
+			}
+			var chosen *cand
+			okAll := true
+			nUses := 0
+			for _, r := range *refs {
+				if _, isDbg := r.(*ssa.DebugRef); isDbg {
+					continue
+				}
+				// the test itself
+				if phi == pt.phi && r.Block() == b {
+					switch r.(type) {
+					case *ssa.BinOp, *ssa.UnOp, *ssa.If:
+						continue
+					}
+				}
+				useBlocks := []*ssa.BasicBlock{r.Block()}
+				if up, isPhi := r.(*ssa.Phi); isPhi {
+					useBlocks = nil
+					for i, e := range up.Edges {
+						if e == ssa.Value(phi) {
+							useBlocks = append(useBlocks, up.Block().Preds[i])
+						}
+					}
+				}
+				for _, ub := range useBlocks {
+					nUses++
+					var hit *cand
+					for i := range cands {
+						if cands[i].succ.Dominates(ub) {
+							hit = &cands[i]
+						}
+					}
+					if hit == nil || (chosen != nil && chosen.succ != hit.succ) {
+						okAll = false
+					} else {
+						chosen = hit
+					}
+				}
+			}
+			if okAll && chosen != nil && nUses > 0 {
+				v := phi.Edges[chosen.idx[0]]
+				q := b.Preds[chosen.idx[0]]
+				for _, j := range chosen.idx[1:] {
+					vp, isPhi := v.(*ssa.Phi)
+					if !isPhi || vp.Block() != q {
+						break
+					}
+					v = vp.Edges[j]
+					q = q.Preds[j]
+				}
+				if v != ssa.Value(phi) {
+					out[phi] = v
+				}
+			}
+		}
+	}
+	return out
 }
 
 // outOf returns in ∪ facts generated inside block b (calls executed, stores,
@@ -447,13 +806,20 @@ func (ff *FnFacts) genInstr(ins ssa.Instruction, out FactSet) {
 			out.add(Fact{Kind: "called", A: t})
 			// A call without an error result that returns is as good as ok:
 			// its summary (facts at all returns) holds afterwards.
-			if x.Common().StaticCallee() != nil && !hasErrorResult(x.Common().Signature()) {
+			// (not for a trailing bool result: the summary of such a function is what holds when it returns
+			// true, and is added on the edge where the result is tested)
+			if x.Common().StaticCallee() != nil && !hasErrorResult(x.Common().Signature()) && !hasBoolResult(x.Common().Signature()) {
 				ff.addSummary(out, x.Common(), t)
 			}
 		}
 	case *ssa.Store:
 		out.add(Fact{Kind: "stored", A: ff.TB.Of(x.Addr), B: ff.TB.Of(x.Val)})
 	}
+}
+
+func hasBoolResult(sig *types.Signature) bool {
+	r := sig.Results()
+	return r.Len() > 0 && types.Identical(r.At(r.Len()-1).Type().Underlying(), types.Typ[types.Bool])
 }
 
 func hasErrorResult(sig *types.Signature) bool {
@@ -956,6 +1322,9 @@ func (ff *FnFacts) nilErr(v ssa.Value, facts FactSet) (bool, []Fact) {
 			}
 		}
 	case *ssa.Phi:
+		if facts.Has((&Fact{Kind: "cmp", Op: "!=", A: ff.TB.Of(v), B: &Term{Op: "const", Name: "nil"}}).Key()) {
+			return false, nil // tested non-nil after the join
+		}
 		possible := false
 		var acc FactSet
 		for i, e := range x.Edges {
